@@ -350,6 +350,17 @@ func instrument(src, dst string, fc FileCfg) error {
 	}
 	// channel receives that are the communication of a select case stay as they are (the
 	// select itself is made non-blocking); `v, ok := <-ch` needs the two-value helper
+	// a select that is the whole body of a bare `for { ... }` may contain `continue`: in the
+	// wrapper loop it re-runs the select, exactly what continuing the outer loop does
+	soleLoopBody := map[*ast.SelectStmt]bool{}
+	ast.Inspect(f, func(n ast.Node) bool {
+		if fs, ok := n.(*ast.ForStmt); ok && fs.Init == nil && fs.Cond == nil && fs.Post == nil && len(fs.Body.List) == 1 {
+			if sel, ok := fs.Body.List[0].(*ast.SelectStmt); ok {
+				soleLoopBody[sel] = true
+			}
+		}
+		return true
+	})
 	inSelectComm := map[*ast.UnaryExpr]bool{}
 	inSelectSend := map[*ast.SendStmt]bool{}
 	twoValue := map[*ast.UnaryExpr]bool{}
@@ -405,7 +416,7 @@ func instrument(src, dst string, fc FileCfg) error {
 							case *ast.ForStmt, *ast.RangeStmt, *ast.FuncLit:
 								return false
 							case *ast.BranchStmt:
-								if y.Tok == token.CONTINUE && y.Label == nil {
+								if y.Tok == token.CONTINUE && y.Label == nil && !soleLoopBody[x] {
 									chanErr = fmt.Errorf("%s: select case body with unlabeled continue is not supported", fset.Position(y.Pos()))
 								}
 							}
